@@ -199,6 +199,9 @@ func genDec(r *Rand, p *Profile, sync bool) h.DecSpec {
 		}
 		d.Listener, d.Ewma = false, false
 	}
+	if d.Listener && r.Bool(0.3) {
+		d.ShutGet = true // a listener that reports its bar's state when it is shut down
+	}
 	return d
 }
 
